@@ -73,7 +73,8 @@ Definition dispatch_model (h : list Z) : list (list Z) := model_graph (decode_gr
 Definition tag_is (k : Z) (o : list Z) : bool := match o with t :: _ => Z.eqb t k | [] => false end.
 
 (* verdict on an implementation transcript:
-   [ tree_eq; decl_eq; probe_eq; nopanic; nlogs; nbad; first_bad_code; counter_violations; panics ]
+   [ tree_eq; decl_eq; probe_eq; nopanic; nlogs; nbad; first_bad_code; counter_violations; panics;
+     probes_inconsistent ]
    the model's outputs with tags 1 / 2 / 6 must equal the implementation's;
    every log (tag 4) is checked with [log_ok] against the model's systems *)
 Definition dispatch_verdict (h : list Z) (t : list (list Z)) : list Z :=
@@ -91,4 +92,5 @@ Definition dispatch_verdict (h : list Z) (t : list (list Z)) : list Z :=
     enc_bool (zlists_eqb (sel 9%Z m) (sel 9%Z t));
     Z.of_nat (length logs); Z.of_nat (length bad);
     match bad with c :: _ => c | [] => 0%Z end;
-    fst summ; snd summ ].
+    fst summ; snd summ;
+    Z.of_nat (length (filter (fun o => negb (probe_consistent o)) (sel 6%Z t))) ].
